@@ -228,3 +228,66 @@ pub fn fstr(line: &str, key: &str) -> Option<String> {
     let end = rest.find('"')?;
     Some(rest[..end].to_string())
 }
+
+/// an arena state in the syntax of the `snap` field (written by this harness, and by TLC for the
+/// start states of the one-step models)
+#[derive(Clone, Debug)]
+pub struct Snap {
+    pub root: i64,
+    /// [parent, left, right, red, key, value, expiration] per slot
+    pub nd: Vec<[i64; 7]>,
+    pub free: Vec<u32>,
+    pub ucap: usize,
+}
+
+fn ints_until(s: &str, close: char) -> (Vec<i64>, usize) {
+    let mut v = vec![];
+    let mut cur = String::new();
+    for (i, c) in s.char_indices() {
+        if c == '-' || c.is_ascii_digit() {
+            cur.push(c);
+        } else {
+            if !cur.is_empty() {
+                v.push(cur.parse().expect("integer in snapshot"));
+                cur.clear();
+            }
+            if c == close {
+                return (v, i);
+            }
+        }
+    }
+    (v, s.len())
+}
+
+pub fn parse_snap(line: &str) -> Option<Snap> {
+    let i = line.find("\"snap\":{")?;
+    let s = &line[i..];
+    let root = fnum(s, "root")?;
+    let a = s.find("\"nd\":[")? + 6;
+    let mut nd = vec![];
+    let mut rest = &s[a..];
+    loop {
+        let t = rest.trim_start_matches(',');
+        if !t.starts_with('[') {
+            break;
+        }
+        let (v, end) = ints_until(&t[1..], ']');
+        if v.len() != 7 {
+            return None;
+        }
+        nd.push([v[0], v[1], v[2], v[3], v[4], v[5], v[6]]);
+        rest = &t[1 + end + 1..];
+    }
+    let f = s.find("\"free\":[")? + 8;
+    let (fv, _) = ints_until(&s[f..], ']');
+    let ucap = fnum(s, "ucap")? as usize;
+    Some(Snap { root, nd, free: fv.into_iter().map(|x| x as u32).collect(), ucap })
+}
+
+pub fn u32r(x: i64) -> u32 {
+    if x < 0 {
+        i_tree::EMPTY_REF
+    } else {
+        x as u32
+    }
+}
